@@ -43,6 +43,12 @@ type Query struct {
 	File string
 }
 
+// CallCover: satisfiability of the path condition right before and right after assuming a callee's postcondition
+type CallCover struct {
+	Callee, Where string
+	Before, After *Query
+}
+
 type Frame struct {
 	fn       *ssa.Function
 	fc       *FuncContract
@@ -88,6 +94,8 @@ type Ctx struct {
 	seenSentinels []string
 	curClause *Clause
 	directStores map[interface{}]bool // cells a loop assigns directly (as opposed to element-wise)
+	callCovered map[string]bool
+	callCovers  []*CallCover
 }
 
 func (c *Ctx) declare(line string) {
